@@ -23,7 +23,7 @@ def loop_contract(it, fr, node):
     """Find the loop contract for this loop node: keyed by (function, ordinal in source order)."""
     fn = getattr(fr, 'fn', None)
     fdef = getattr(fr, 'fdef', None)
-    if fn is None or fdef is None or it.registry is None:
+    if fn is None or fdef is None or it.registry is None or getattr(it, 'inline_all', 0):
         return None, None
     loops = [n for n in ast.walk(fdef) if isinstance(n, (ast.While, ast.For))]
     loops.sort(key=lambda n: (n.lineno, n.col_offset))
@@ -126,6 +126,8 @@ def while_with_invariant(it, node, fr, lc, k):
         # arbitrary iteration
         c = it.truth(it.ev(node.test, fr))
         ctx.assume(c)
+        if ctx.sat_now() == z3.unsat:
+            raise PathEnd('loop body verified')      # invariant and condition exclude each other
         v0 = run_clause(it, lc.variant, fr, extra) if lc.variant is not None else None
         if lc.body_ensures:
             extra = dict(extra)
